@@ -11,12 +11,15 @@ InjSeqs(k, nn) == {s \in [1..k -> 0..nn-1] : \A a, b \in 1..k : a # b => s[a] # 
 Init == /\ BIdle
         /\ \E nn \in 1..MaxN : \E k \in 1..(IF nn < MaxK THEN nn ELSE MaxK) :
               \E qs \in InjSeqs(k, nn) : LInit(qs, nn)
-Next == SwapStep /\ UNCHANGED bvars
+Swap == SwapStep /\ UNCHANGED bvars
+Next == Swap
 Spec == Init /\ [][Next]_<<bvars, lvars>>
 LiftRefinesFull == ln <= FullN => LiftRefines
-\* one line per placement: the final arrangement and the number of loop iterations (divergence-level
-\* information for the harness; the property-level content is LiftRefines)
+\* one line per placement: the specification's index map `sub` (register index -> gate-local index),
+\* with which the harness relates the real matrix on this placement to the real matrix of the same gate
+\* on qubits k-1 .. 0; the final arrangement and the number of loop iterations are informational
 Emit == lph = "done" =>
           PrintT(<<"CASE", ToJson([kind |-> "lift", n |-> ln, qubits |-> lqs, steps |-> steps,
-                                   start |-> Start, arr |-> [p \in 1..ln |-> arr[p - 1]]])>>)
+                                   start |-> Start, arr |-> [p \in 1..ln |-> arr[p - 1]],
+                                   sub |-> [r \in 1..Pow2(ln) |-> SubIdx(r - 1, lqs, 1)]])>>)
 =============================================================================
